@@ -92,7 +92,7 @@ func property(t *rapid.T) {
 	// The exclusion of the known class relies on the model: everything it believes to exist
 	// must really have been created (the converse is harmless).
 	for i, ok := range res.instOK {
-		if m.insts[i].ok && !ok {
+		if m.insts[i].ok && !m.insts[i].ghost && !ok {
 			t.Fatalf("harness: the generator's model believes instance i%d exists but its creation failed (%v)\n%s", i, res.Labels, describe(h))
 		}
 	}
@@ -211,6 +211,18 @@ func TestChild(t *testing.T) {
 	}
 	if err != nil {
 		t.Fatal(err)
+	}
+	if h.Stress != nil {
+		defer runtime.GOMAXPROCS(runtime.GOMAXPROCS(4))
+		var msg string
+		for i := 0; i < 3 && msg == ""; i++ { // schedule dependent: a few chances
+			msg = runStress(h.Stress)
+		}
+		printChildResult(childOut{Violation: msg})
+		if abandoned {
+			os.Exit(0)
+		}
+		return
 	}
 	noGC := os.Getenv("C09_NOGC") != ""
 	if noGC {
@@ -381,12 +393,22 @@ func TestReplay(t *testing.T) {
 	if _, err := evid.LoadReplay(p, &h); err != nil {
 		t.Fatal(err)
 	}
+	if h.Wait != nil {
+		if msg := checkWait(h.Wait); msg != "" {
+			evid.Violation("replay", &h, "%s", msg)
+			t.Fatal(msg)
+		}
+		return
+	}
 	if h.Stress != nil {
 		defer runtime.GOMAXPROCS(runtime.GOMAXPROCS(4))
 		// a schedule-dependent failure: give it several chances to show up again
 		for i := 0; i < 5; i++ {
 			if msg := runStress(h.Stress); msg != "" {
 				evid.Violation("replay", &h, "concurrent compile/instantiate/close (%+v): %s", *h.Stress, msg)
+				if abandoned {
+					os.Exit(1) // blocked goroutines: do not run deferred closes
+				}
 				t.Fatal(msg)
 			}
 		}
